@@ -136,11 +136,18 @@ func opaqueSortName(t types.Type) string {
 func isOpaqueStruct(t types.Type) bool {
 	if n, ok := t.(*types.Named); ok {
 		if _, isStruct := n.Underlying().(*types.Struct); isStruct && !isModuleType(n) {
+			if p := n.Obj().Pkg(); p != nil && TransparentPkgs[p.Path()] {
+				return false
+			}
 			return true
 		}
 	}
 	return false
 }
+
+// TransparentPkgs: non-module packages whose struct types are modelled field by field during this
+// run (set by the command from the "package transparent" directive of the package under verification).
+var TransparentPkgs = map[string]bool{}
 
 func basicSort(b *types.Basic) *smt.Sort {
 	switch b.Kind() {
